@@ -103,6 +103,36 @@ def unit_class(model):
         # a canary is refuted if it fails on at least one path
         recs += _merge_canaries(settle(ctx.all_obls, mode="U", unbounded=True))
 
+    # ---- the same after the operands have been compared once and `a` was then updated in place (rate()
+    # writes mu / sigma of the objects it is given): the verdict must follow the *current* values
+    for op, meth in OPS.items():
+        ctx = Ctx("U")
+
+        def run(ctx, op=op, meth=meth):
+            a, mua, sga = _mk(ctx, R, "a")
+            b, mub, sgb = _mk(ctx, R, "b")
+            for m2 in OPS.values():
+                call(getattr(a, m2), b)
+                call(getattr(b, m2), a)
+            call(a.ordinal), call(b.ordinal), call(hash, a), call(hash, b), call(a.__eq__, b)
+            mu2, sg2 = ctx.number("mu_a2"), ctx.number("sigma_a2")
+            a.mu, a.sigma = mu2, sg2
+
+            def mk(md, op=op):
+                return {"kind": "c18_update", "model": model, "op": op,
+                        "a": [enc_model(md, "mu_a"), enc_model(md, "sigma_a")], "a2": [enc_model(md, "mu_a2"), enc_model(md, "sigma_a2")],
+                        "b": [enc_model(md, "mu_b"), enc_model(md, "sigma_b")]}
+            oa, ob = spec_ordinal(mu2, sg2), spec_ordinal(mub, sgb)
+            for (x, y, ox, oy, tag) in ((a, b, oa, ob, "updated-left"), (b, a, ob, oa, "updated-right")):
+                out = call(getattr(x, meth), y)
+                name = f"C18/{fnq}/{op}/after-in-place-update[{tag}]"
+                if out[0] != "return":
+                    ctx.oblige(name, False, meta={"replay": mk, "fn": f"{fnq}.{meth}"})
+                    continue
+                ctx.oblige(name, _retbool(out[1]) == Z3OP[op](ox.t, oy.t), meta={"replay": mk, "fn": f"{fnq}.{meth}"})
+        explore(ctx, run)
+        recs += settle(ctx.all_obls, mode="U", unbounded=True)
+
     # ---- order operators and ==, foreign operand of symbolic type
     for op, meth in list(OPS.items()) + [("eq", "__eq__")]:
         ctx = Ctx("U")
